@@ -8,7 +8,6 @@ import (
 	"net/http"
 	"net/http/httptest"
 	"net/url"
-	"path"
 	"sort"
 	"strings"
 	"testing"
@@ -22,6 +21,8 @@ import (
 type c03Route struct {
 	M string `json:"m"`
 	P string `json:"p"`
+	N bool   `json:"n,omitempty"` // registration: a nil handler is passed (the statement does not say what happens)
+	Q string `json:"q,omitempty"` // request: raw query string (not part of the path)
 }
 
 // c03Phase: further registrations made AFTER requests were already served by the same router.
@@ -45,9 +46,27 @@ var c03ValidMethods = map[string]bool{
 	http.MethodPatch: true, http.MethodPost: true, http.MethodPut: true,
 }
 
+// c03Clean: the cleaned form of a rooted path, written from the statement ('//', '/./', a
+// trailing '/' and '..' steps removed). Deliberately NOT path.Clean, which the router calls.
+func c03Clean(p string) string {
+	var st []string
+	for _, s := range strings.Split(p, "/") {
+		switch s {
+		case "", ".":
+		case "..":
+			if len(st) > 0 {
+				st = st[:len(st)-1]
+			}
+		default:
+			st = append(st, s)
+		}
+	}
+	return "/" + strings.Join(st, "/")
+}
+
 // reference: cleaned path -> segments; the root path is ONE empty segment.
 func c03Segs(p string) []string {
-	c := path.Clean(p)
+	c := c03Clean(p)
 	return strings.Split(c[1:], "/")
 }
 
@@ -127,7 +146,12 @@ func c03Interp(c c03Case) (v kit.Verdict) {
 		// registration
 		for j, r := range ph.Routes {
 			i := base + j
-			err := rt.Handle(r.M, r.P, mk(i))
+			var err error
+			if r.N {
+				err = rt.Handle(r.M, r.P, nil)
+			} else {
+				err = rt.Handle(r.M, r.P, mk(i))
+			}
 			wantErr := false
 			switch {
 			case !c03ValidMethods[r.M]:
@@ -136,15 +160,26 @@ func c03Interp(c c03Case) (v kit.Verdict) {
 			case len(r.P) == 0 || r.P[0] != '/':
 				wantErr = true
 				classes["reg-invalid-path"] = true
-			case seen[r.M+" "+path.Clean(r.P)]:
+			case seen[r.M+" "+c03Clean(r.P)]:
 				wantErr = true
 				classes["reg-duplicate"] = true
+			case r.N:
+				// UNSPECIFIED by the statement. A refused registration leaves the pattern
+				// unregistered (it may be registered later, and must not match meanwhile);
+				// an accepted one has no handler to invoke: nothing to judge any more.
+				classes["reg-nil-handler-unspecified"] = true
+				if err == nil {
+					v.Excluded = true
+					v.Classes = []string{"reg-nil-handler-accepted"}
+					return v
+				}
+				continue
 			}
 			if wantErr != (err != nil) {
 				return v.Failf("Handle(%q,%q): error=%v, reference says rejected=%v", r.M, r.P, err, wantErr)
 			}
 			if err == nil {
-				seen[r.M+" "+path.Clean(r.P)] = true
+				seen[r.M+" "+c03Clean(r.P)] = true
 				table[r.M] = append(table[r.M], c03Reg{id: i, segs: c03Segs(r.P)})
 			}
 		}
@@ -152,13 +187,23 @@ func c03Interp(c c03Case) (v kit.Verdict) {
 		for _, q := range ph.Reqs {
 			ran, ranVars = nil, nil
 			rec := httptest.NewRecorder()
-			req := &http.Request{Method: q.M, URL: &url.URL{Path: q.P}, Header: http.Header{}}
+			req := &http.Request{Method: q.M, URL: &url.URL{Path: q.P, RawQuery: q.Q}, Header: http.Header{}}
 			rt.ServeHTTP(rec, req)
-			rsegs := c03Segs(q.P)
-			what := fmt.Sprintf("request %s %q (cleaned %q)", q.M, q.P, path.Clean(q.P))
 			if len(ran) > 1 {
-				return v.Failf("%s: %d handlers ran: %v", what, len(ran), ran)
+				return v.Failf("request %s %q: %d handlers ran: %v", q.M, q.P, len(ran), ran)
 			}
+			if len(q.P) == 0 || q.P[0] != '/' {
+				// a path that is not rooted ("", "*", "a/b": OPTIONS *, CONNECT, a handler behind
+				// http.StripPrefix): the statement speaks about segments of a rooted path only.
+				// UNSPECIFIED: run for panics and double dispatch.
+				classes["req-unrooted-unspecified"] = true
+				continue
+			}
+			if q.Q != "" {
+				classes["req-with-query"] = true
+			}
+			rsegs := c03Segs(q.P)
+			what := fmt.Sprintf("request %s %q (cleaned %q)", q.M, q.P, c03Clean(q.P))
 			// reference match set
 			matches := map[int]map[string][]string{}
 			literal := -1
@@ -471,6 +516,7 @@ func c03Gen(rt *rapid.T) c03Case {
 		default:
 			r.P = c03GenPattern(rt)
 		}
+		r.N = rapid.IntRange(0, 39).Draw(rt, "nilh") == 0
 		c.Routes = append(c.Routes, r)
 	}
 	c.NotFound = rapid.IntRange(0, 3).Draw(rt, "nf") == 0
@@ -484,6 +530,12 @@ func c03Gen(rt *rapid.T) c03Case {
 			q.M = rapid.SampledFrom(methods).Draw(rt, "qm")
 		}
 		q.P = c03GenReqPath(rt, c.Routes)
+		switch rapid.IntRange(0, 29).Draw(rt, "qform") {
+		case 0:
+			q.P = rapid.SampledFrom([]string{"", "*", "a", "a/b", ".", "..", "a//b/", ":x"}).Draw(rt, "unrooted")
+		case 1, 2:
+			q.Q = rapid.SampledFrom([]string{"x=1", "x=/a/b", "/a", "a=1&b=2"}).Draw(rt, "query")
+		}
 		c.Reqs = append(c.Reqs, q)
 	}
 	// later phases: more routes (often for a method not used so far) registered after serving
@@ -541,13 +593,13 @@ func c03Enumerate(patAlpha, reqAlpha []string, depth int, methods []string) func
 		var pairs []c03Route
 		for _, m := range methods {
 			for _, p := range pats {
-				pairs = append(pairs, c03Route{m, p})
+				pairs = append(pairs, c03Route{M: m, P: p})
 			}
 		}
 		var reqs []c03Route
 		for _, m := range methods {
 			for _, p := range c03AllPaths(reqAlpha, depth) {
-				reqs = append(reqs, c03Route{m, p})
+				reqs = append(reqs, c03Route{M: m, P: p})
 			}
 		}
 		n := len(pairs)
